@@ -460,6 +460,12 @@ int main(void) {
     }
   }
   vp_buf[VP_N] = 0; vp_buf[VP_N + 1] = 0;
+#if VP_FULLTBL
+  /* full tables: the scanner never recomputes the state of text that jammed
+   * (negative state numbers would index out of range), so the walk stays on
+   * live strings; jamming is decided by the yylex step obligations */
+  VP_ASSUME(alive);
+#endif
   vp_expect_fatal = 0;
   VP_INIT_SCANNER();
   yybuffer b = VP_SCAN_BUFFER(vp_buf, VP_N + 2);
@@ -1417,4 +1423,73 @@ int main(void) {
         txt = txt.replace('VP_ALLOC_EXTRA2', ', yyscan_t vp_scanner').replace('VP_AFTER_INIT();', '')
     # reentrant harnesses do their own init (error return is part of the claim)
     txt = txt.replace('  VP_DECL_SCANNER\n#ifdef REPLAY\n#include "vp_replay_set.inc"', '  VP_DECL_SCANNER\n#ifdef REPLAY\n#include "vp_replay_set.inc"', 1)
+    return txt
+
+
+def wrap_harness(g, cfg, spec, n, witness=False):
+    """End of input with a user yywrap(): the first source is empty; yywrap
+    either reports no further input or supplies a second buffer."""
+    H = [common_head(g, cfg, spec, max(n, 1)), action_table(spec), eof_table(spec)]
+    H.append('#define VP_N %d' % n)
+    if witness:
+        H.append('#define VP_WITNESS 1')
+    H.append(r'''
+unsigned char vpi_b[VP_N > 0 ? VP_N : 1];
+int vpi_sc, vpi_more;
+static char vp_bufa[2], vp_bufb[VP_N + 2];
+static int vp_wraps;
+#ifdef VP_WRAP_ARG
+int yywrap(yyscan_t vp_scanner) {
+#else
+int yywrap(void) {
+#endif
+  vp_wraps++;
+  if (vpi_more && vp_wraps == 1) {
+    yybuffer nb = VP_SCAN_BUFFER(vp_bufb, VP_N + 2);     /* continue with another source */
+    VP_ASSERT(nb != 0, "second source");
+    return 0;
+  }
+  return 1;
+}
+
+int main(void) {
+  VP_DECL_SCANNER
+#ifdef REPLAY
+#include "vp_replay_set.inc"
+#else
+  for (int i = 0; i < VP_N; i++) vpi_b[i] = nondet_uchar();
+  vpi_sc = nondet_int(); vpi_more = nondet_int();
+#endif
+  VP_ASSUME(vpi_sc >= 0 && vpi_sc < VP_NSC);
+  VP_ASSUME(vpi_more == 0 || vpi_more == 1);
+  int nuls = 0;
+  for (int i = 0; i < VP_N; i++) { if (vpi_b[i] == 0) nuls++; vp_bufb[i] = (char)vpi_b[i]; }
+  VP_ASSUME(nuls <= 1);
+  vp_bufa[0] = vp_bufa[1] = 0; vp_bufb[VP_N] = vp_bufb[VP_N + 1] = 0;
+  vp_expect_fatal = 0;
+  VP_INIT_SCANNER();
+  yybuffer a = VP_SCAN_BUFFER(vp_bufa, 2);
+  VP_ASSERT(a != 0, "empty first source");
+  VP_BEGIN(vpi_sc);
+  int tot = 0;
+  int rr = vp_first_token(vpi_b, VP_N, vpi_sc, 1, &tot);
+  int t = VP_LEX();
+  if (!vpi_more || VP_N == 0) {
+    VP_ASSERT(t == vp_eofret[vpi_sc], "yywrap reports no further input: the EOF action of the current start condition runs");
+    VP_ASSERT(vp_wraps == (vpi_more ? 2 : 1), "yywrap consulted once per exhausted source");
+  } else {
+    VP_ASSERT(vp_wraps == 1, "yywrap consulted exactly once");
+    VP_ASSERT(t == vp_actid[rr], "scanning continues with the new source, at beginning of line, nothing lost");
+    VP_ASSERT(vp_has_trail(rr) || VP_LENG == tot, "token length in the new source");
+  }
+  VP_ASSERT(VP_START() == vpi_sc, "end of input does not change the start condition");
+#ifdef VP_WITNESS
+  VP_ASSERT(!(vpi_more && VP_N > 0 && VP_LENG == VP_N), "WITNESS: token from the second source");
+#endif
+  return 0;
+}
+''')
+    txt = '\n'.join(H)
+    if cfg.api != 'nr':
+        txt = txt.replace('#ifdef VP_WRAP_ARG', '#if 1')
     return txt
